@@ -36,6 +36,7 @@ def check(ctx, tier):
     scalar_expansion(ctx, tk)
     equality_compares_keys(ctx, tk)
     keys_values_apart(ctx, tk)
+    exact_key_comparison(ctx, tk)
     fs = [f for q, f in ctx.program.funcs.items() if q.startswith("hashtable.")]
     hazards.h2_argmax_of_mask(ctx, tk, "C11.b", fs)
     W.report(ctx, tk, "C11.j", fs)
@@ -46,6 +47,30 @@ def check(ctx, tier):
 
 
 FROZEN = {"_keys", "_mod", "_key_dtype"}
+
+
+def exact_key_comparison(ctx, tk):
+    """lookups compare the bucket rows with the query column through RaggedArray.__array_ufunc__.  numpy's comparison of int64 with
+    uint64 is exact, but np.result_type(int64, uint64) is float64: a dispatcher that casts the column to the common result type
+    *before* the ufunc compares keys above 2**53 in floating point (2**62 and 2**62 + 1 are the same float), so absent keys are
+    reported present and their lookups are not refused"""
+    f = ctx.func("raggedarray.RaggedArray.__array_ufunc__")
+    fa = ctx.fa(f)
+    what = "key comparisons are exact for every pairing of signed and unsigned key / query types (operands are not cast to np.result_type before the comparison)"
+    calls = find_calls(fa, lambda c: c.a[0].k == "attr" and c.a[0].a[1] == "_broadcast_rows")
+    if not calls:
+        ctx.unknown("C11.k", f, what, "column broadcast not found", engine="KB")
+    for n, c in calls:
+        kw = dict(c.a[2])
+        dt = kw.get("dtype", c.a[1][1] if len(c.a[1]) > 1 else None)
+        if dt is None:
+            ctx.unknown("C11.k", f, what, "no dtype is passed (decided by C04.g)", node=c.node, engine="KB")
+            continue
+        pre = any(np_call(x, {"result_type", "promote_types"}) for a in alts(dt) for x in walk(a))
+        own = dt.k == "attr" and dt.a[1] == "dtype" and c.a[1] and str(dt.a[0]) == str(c.a[1][0])
+        ctx.decide("C11.k", f, what, True if own else (False if pre else None),
+                   "`%s` casts the query column to np.result_type of the operands first - float64 for a uint64 table asked with int64 keys (a Python list): "
+                   "HashTable(uint64 [2**62, 5], mod=1).contains([2**62 + 1]) is True" % (c,), node=c.node, key="precast", engine="KB")
 
 
 def who_may_write(ctx, tk):
